@@ -213,7 +213,28 @@ impl Prop for C18 {
         o.label_if(asym, "asymmetric-cycle");
         o.label_if(case.edges.iter().any(|(a, b)| a == b), "self-loop");
 
-        let graph = net.graph();
+        // one generated graph in three (and a sample of the enumerated ones) is loaded from
+        // edge and vertex files through the application's graph builder, as an application's
+        // network is; the others are assembled in memory
+        let from_files = case.n <= 200 && (case.n + 2 * case.edges.len()) % 3 == 0 && (case.n >= 5 || case.edges.len() % 5 == 1);
+        o.label_if(from_files, "graph-loaded-from-files");
+        let graph = if from_files {
+            let dir = crate::engine::CaseDir::new();
+            let (ep, vp) = (dir.file("edges.csv"), dir.file("vertices.csv"));
+            if crate::appbuild::write_text(&ep, &crate::appbuild::edges_csv(&net), false).is_err() || crate::appbuild::write_text(&vp, &crate::appbuild::vertices_csv(&net), false).is_err() {
+                return o;
+            }
+            let cfg = json!({"edge_list_input_file": ep.to_string_lossy().to_string(), "vertex_list_input_file": vp.to_string_lossy().to_string(), "verbose": false});
+            match routee_compass::app::compass::config::graph_builder::DefaultGraphBuilder::build(&cfg) {
+                Ok(g) => g,
+                Err(e) => {
+                    o.fail("C18/graph-files-rejected", json!({"error": e.to_string()}));
+                    return o;
+                }
+            }
+        } else {
+            net.graph()
+        };
         let got = match scc::all_strongly_connected_componenets(&graph) {
             Ok(g) => g,
             Err(e) => {
